@@ -116,7 +116,7 @@ func orAll(c *sym.Ctx, ts []*sym.Term) *sym.Term {
 }
 
 // RunInstance executes one harness instance symbolically and discharges its obligations.
-func (w *World) RunInstance(inst Instance, s *sym.Solver) (res *InstResult) {
+func (w *World) RunInstance(inst Instance, s *sym.Pool) (res *InstResult) {
 	res = &InstResult{Inst: inst}
 	fn := w.Func(inst.Pkg, inst.Func)
 	if fn == nil {
@@ -170,7 +170,7 @@ func (w *World) RunInstance(inst Instance, s *sym.Solver) (res *InstResult) {
 	return
 }
 
-func (w *World) discharge(inst Instance, x *vexec.Exec, s *sym.Solver, res *InstResult) {
+func (w *World) discharge(inst Instance, x *vexec.Exec, pl *sym.Pool, res *InstResult) {
 	c := x.C
 	H := x.H
 	panicMode := inst.Opt.PanicMode
@@ -181,13 +181,14 @@ func (w *World) discharge(inst Instance, x *vexec.Exec, s *sym.Solver, res *Inst
 	if unwindMode == "" {
 		unwindMode = "assume"
 	}
-	s.Reset()
-	q0 := s.Queries
-	t0 := s.Time
-	// define everything at base level
-	for _, a := range H.Assumes {
-		s.Em.Define(c, a)
+	if d := os.Getenv("VP_SMT_LOG"); d != "" {
+		dir := filepath.Join(d, strings.ReplaceAll(inst.Name(), " ", "_"))
+		os.MkdirAll(dir, 0o755)
+		pl.LogDir = dir
+		defer func() { pl.LogDir = "" }()
 	}
+	q0 := pl.Queries
+	t0 := pl.Time
 	noPanicUpTo := make([]*sym.Term, len(x.Panics)+1)
 	noPanicUpTo[0] = c.True
 	for i, p := range x.Panics {
@@ -199,40 +200,31 @@ func (w *World) discharge(inst Instance, x *vexec.Exec, s *sym.Solver, res *Inst
 			unwindAssume = c.And(unwindAssume, c.Not(u.Cond))
 		}
 	}
-	s.Em.Define(c, unwindAssume)
-	for _, t := range noPanicUpTo {
-		s.Em.Define(c, t)
-	}
-	for _, a := range H.Asserts {
-		s.Em.Define(c, a.Bad)
-		s.Em.Define(c, a.G)
-	}
-	for _, cv := range H.Covers {
-		s.Em.Define(c, cv.G)
-	}
-	for _, p := range x.Panics {
-		s.Em.Define(c, p.Cond)
-	}
-	for _, u := range x.Unwinds {
-		s.Em.Define(c, u.Cond)
-	}
-	res.Defs = s.Em.NDefs
-
-	assertAssumes := func(n int) {
+	base := func(n int) []*sym.Term {
+		var as []*sym.Term
 		for _, a := range H.Assumes[:n] {
 			if a.IsConst() && a.C == 1 {
 				continue
 			}
-			s.Assert(c, a)
+			as = append(as, a)
 		}
 		if !(unwindAssume.IsConst() && unwindAssume.C == 1) {
-			s.Assert(c, unwindAssume)
+			as = append(as, unwindAssume)
 		}
+		return as
 	}
-	check := func() (sym.Result, string, float64) {
+	solve := func(as []*sym.Term) (sym.Result, map[string]uint64, string, float64) {
+		for _, a := range as {
+			if a.IsConst() && a.C == 0 {
+				return sym.Unsat, nil, "closed by simplifier", 0
+			}
+		}
 		t := time.Now()
-		r, msg := s.Check()
-		return r, msg, float64(time.Since(t).Microseconds()) / 1000
+		r, m, who, msg := pl.Solve(&sym.Query{C: c, Asserts: as})
+		if who != "" {
+			msg = "by " + who + " " + msg
+		}
+		return r, m, msg, float64(time.Since(t).Microseconds()) / 1000
 	}
 
 	// assertions
@@ -243,35 +235,22 @@ func (w *World) discharge(inst Instance, x *vexec.Exec, s *sym.Solver, res *Inst
 			res.Obs = append(res.Obs, ob)
 			continue
 		}
-		s.Push()
-		assertAssumes(a.NAssume)
+		as := base(a.NAssume)
 		if panicMode != "ignore" {
 			np := noPanicUpTo[a.NPanic]
 			if !(np.IsConst() && np.C == 1) {
-				s.Assert(c, np)
+				as = append(as, np)
 			}
 		}
-		s.Assert(c, a.Bad)
-		r, msg, ms := check()
-		ob.Ms = ms
-		ob.Verdict = r.String()
-		ob.Detail = msg
+		as = append(as, a.Bad)
+		r, m, msg, ms := solve(as)
+		ob.Ms, ob.Verdict, ob.Detail = ms, r.String(), msg
 		if r == sym.Sat {
-			m, err := s.Model(c.Vars)
-			if err != nil {
-				ob.Verdict = "unknown"
-				ob.Detail = "model extraction failed: " + err.Error()
-			} else {
-				ob.Model = m
-				// sanity: the model must make Bad true under our own evaluator
-				env := m
-				memo := map[*sym.Term]uint64{}
-				if sym.Eval(a.Bad, env, memo) != 1 && len(c.Apps) == 0 {
-					ob.Detail += " [model does not satisfy the term evaluator]"
-				}
+			ob.Model = m
+			if len(c.Apps) == 0 && sym.Eval(a.Bad, m, map[*sym.Term]uint64{}) != 1 {
+				ob.Detail += " [model does not satisfy the term evaluator]"
 			}
 		}
-		s.Pop()
 		res.Obs = append(res.Obs, ob)
 	}
 	// vacuity: every assertion's guard and every cover point must be reachable under the assumptions
@@ -292,16 +271,19 @@ func (w *World) discharge(inst Instance, x *vexec.Exec, s *sym.Solver, res *Inst
 			cvs = append(cvs, cv{"reach:" + a.Label, a.G, a.NAssume})
 		}
 		for _, p := range H.Covers {
+			key := fmt.Sprintf("%d/%d", p.G.ID, p.NAssume)
+			if seen[key] {
+				continue
+			}
+			seen[key] = true
 			cvs = append(cvs, cv{"cover:" + p.Label, p.G, p.NAssume})
 		}
 		for _, v := range cvs {
 			ob := ObResult{Label: v.label, Kind: "cover"}
-			s.Push()
-			assertAssumes(v.n)
-			s.Assert(c, v.g)
-			r, msg, ms := check()
-			ob.Ms, ob.Verdict, ob.Detail = ms, r.String(), msg
-			s.Pop()
+			as := append(base(v.n), v.g)
+			var r sym.Result
+			r, _, ob.Detail, ob.Ms = solve(as)
+			ob.Verdict = r.String()
 			res.Obs = append(res.Obs, ob)
 		}
 	}
@@ -329,28 +311,19 @@ func (w *World) discharge(inst Instance, x *vexec.Exec, s *sym.Solver, res *Inst
 				res.Obs = append(res.Obs, ob)
 				continue
 			}
-			s.Push()
-			assertAssumes(k)
-			s.Assert(c, any)
-			r, msg, ms := check()
+			r, m, msg, ms := solve(append(base(k), any))
 			ob.Ms, ob.Verdict, ob.Detail = ms, r.String(), msg
 			if r == sym.Sat {
-				m, err := s.Model(c.Vars)
-				if err != nil {
-					ob.Verdict, ob.Detail = "unknown", "model extraction failed: "+err.Error()
-				} else {
-					ob.Model = m
-					memo := map[*sym.Term]uint64{}
-					for _, i := range groups[k] {
-						if sym.Eval(x.Panics[i].Cond, m, memo) == 1 {
-							ob.Detail = fmt.Sprintf("%s at %s", x.Panics[i].Kind, x.Panics[i].Pos)
-							ob.Pos = x.Panics[i].Pos
-							break
-						}
+				ob.Model = m
+				memo := map[*sym.Term]uint64{}
+				for _, i := range groups[k] {
+					if sym.Eval(x.Panics[i].Cond, m, memo) == 1 {
+						ob.Detail = fmt.Sprintf("%s at %s", x.Panics[i].Kind, x.Panics[i].Pos)
+						ob.Pos = x.Panics[i].Pos
+						break
 					}
 				}
 			}
-			s.Pop()
 			res.Obs = append(res.Obs, ob)
 		}
 	}
@@ -358,20 +331,14 @@ func (w *World) discharge(inst Instance, x *vexec.Exec, s *sym.Solver, res *Inst
 	if unwindMode == "assert" {
 		for _, u := range x.Unwinds {
 			ob := ObResult{Label: fmt.Sprintf("unwind %s bound=%d", u.Pos, u.Bound), Kind: "unwind"}
-			s.Push()
-			assertAssumes(len(H.Assumes))
-			s.Assert(c, u.Cond)
-			r, msg, ms := check()
-			ob.Ms, ob.Verdict, ob.Detail = ms, r.String(), msg
-			if r == sym.Sat {
-				ob.Replayed = "n/a"
-			}
-			s.Pop()
+			var r sym.Result
+			r, _, ob.Detail, ob.Ms = solve(append(base(len(H.Assumes)), u.Cond))
+			ob.Verdict = r.String()
 			res.Obs = append(res.Obs, ob)
 		}
 	}
-	res.Queries = s.Queries - q0
-	res.SolverMs = float64((s.Time - t0).Microseconds()) / 1000
+	res.Queries = pl.Queries - q0
+	res.SolverMs = float64((pl.Time - t0).Microseconds()) / 1000
 }
 
 // ---------------------------------------------------------------- native replay
